@@ -20,10 +20,11 @@ EXTENDS Integers, FiniteSets, Sequences, TLC
 CONSTANTS Handles,        \* sqlittle handles
           ProcOf,         \* handle -> process
           Writers,        \* SQLite connections that write (each its own process)
+          Foreign,        \* processes that are not SQLite: they lock byte ranges of the file as they like
           MaxCommits,     \* bound on committed transactions
           MaxOps          \* bound on operations per handle
 
-Procs == {ProcOf[h] : h \in Handles} \cup Writers
+Procs == {ProcOf[h] : h \in Handles} \cup Writers \cup Foreign
 Regions == {"pend", "resv", "shrd"}
 
 VARIABLES lk,        \* lk[p][r] \in {"N","R","W"}: the kernel's table
@@ -239,7 +240,24 @@ WUnlock(w) ==
     /\ last' = <<"WUnlock", w>>
     /\ UNCHANGED <<fds, hpc, belief, hres, hseen, nops, fver, writing>>
 
+-----------------------------------------------------------------------------
+(* A process that does not follow SQLite's protocol: it write-locks the     *)
+(* pending byte or the shared range directly (what fcntl allows anybody).   *)
+(* Against such a process a reader's SECOND lock step can fail after its    *)
+(* first one succeeded -- which never happens against real SQLite writers.  *)
+FLock(f, r) ==
+    /\ r \in {"pend", "shrd"} /\ lk[f][r] = "N" /\ CanLock(lk, f, r, "W")
+    /\ lk' = SetLock(lk, f, r, "W")
+    /\ last' = <<"FLock", f>>
+    /\ UNCHANGED <<fds, hpc, belief, hres, hseen, nops, wst, wpc, fver, writing>>
+FUnlock(f, r) ==
+    /\ r \in {"pend", "shrd"} /\ lk[f][r] = "W"
+    /\ lk' = SetLock(lk, f, r, "N")
+    /\ last' = <<"FUnlock", f>>
+    /\ UNCHANGED <<fds, hpc, belief, hres, hseen, nops, wst, wpc, fver, writing>>
+
 Next ==
+    \/ \E f \in Foreign, r \in {"pend", "shrd"} : FLock(f, r) \/ FUnlock(f, r)
     \/ \E h \in Handles :
           OsOpen(h) \/ MmapOpenClosesSecondFd(h) \/ LockPendingR(h) \/ LockSharedR(h) \/ UnlockPending(h)
           \/ PageRead(h) \/ CallbackEnter(h) \/ CallbackExit(h) \/ RUnlock(h) \/ Close(h)
